@@ -1,5 +1,5 @@
 (* FtocGotoProofs.v -- lemmas about the path-terminator tests of FtocGoto.v *)
-From Coq Require Import ZArith List Bool Lia.
+From Coq Require Import ZArith List Bool Lia String.
 From CgnsV Require Import FtocGoto.
 Import ListNotations.
 Local Open Scope Z_scope.
@@ -34,3 +34,47 @@ Proof.
   intros ts t H Hin Hk l. unfold terms_checked in H. rewrite forallb_forall in H. specialize (H t Hin).
   rewrite Hk, orb_false_r in H. now apply term_ok_sound.
 Qed.
+
+(* ---- the blocks of cg_goto_f / cg_gorel_f *)
+Lemma gstmt_eqb_eq : forall a b, gstmt_eqb a b = true -> a = b.
+Proof.
+  destruct a, b; simpl; intros H; try discriminate; try reflexivity.
+  - apply Z.eqb_eq in H. now subst.
+  - apply Z.eqb_eq in H. now subst.
+  - apply andb_true_iff in H. destruct H as [H H3]. apply andb_true_iff in H. destruct H as [H1 H2].
+    apply Z.eqb_eq in H2, H3. subst. destruct c, c0; simpl in H1; try discriminate; reflexivity.
+Qed.
+
+Lemma gstmts_eqb_eq : forall a b, gstmts_eqb a b = true -> a = b.
+Proof.
+  induction a as [|x ar IH]; destruct b as [|y br]; simpl; intros H; try discriminate; auto.
+  apply andb_true_iff in H. destruct H as [H1 H2]. f_equal; [now apply gstmt_eqb_eq | now apply IH].
+Qed.
+
+(* the generic statement behind C20f_goto_blocks_forward: for ANY pair of statement lists accepted by goto_blocks_ok,
+   every depth k = 2..20 has its block  IF (PRESENT(i_k)) ... cg_gorel_fc1(fn, UserDataName_k, i_k)  in both procedures,
+   depth 1 goes to cg_goto_fc1 resp. cg_gorel_fc1 with UserDataName_1 and i_1 (or the literal 0 when i_1 is absent), and NO
+   forwarding call pairs a name with another depth's index *)
+Lemma blocks_forward : forall g r, goto_blocks_ok g r = true ->
+  (forall k, 2 <= k <= 20 -> In (GCall CGorel k k) g /\ In (GCall CGorel k k) r /\ In (GIfPresent k) g /\ In (GIfPresent k) r) /\
+  In (GCall CGoto 1 1) g /\ In (GCall CGoto 1 0) g /\ In (GCall CGorel 1 1) r /\ In (GCall CGorel 1 0) r /\
+  forallb call_forwards_own_pair g = true /\ forallb call_forwards_own_pair r = true /\
+  List.length (filter (fun s => match s with GCall _ _ _ => true | _ => false end) g) = 21%nat /\
+  List.length (filter (fun s => match s with GCall _ _ _ => true | _ => false end) r) = 21%nat.
+Proof.
+  intros g r H. unfold goto_blocks_ok in H. apply andb_true_iff in H. destruct H as [Hg Hr].
+  apply gstmts_eqb_eq in Hg. apply gstmts_eqb_eq in Hr. subst g r.
+  split.
+  - intros k Hk.
+    assert (Hc : k = 2 \/ k = 3 \/ k = 4 \/ k = 5 \/ k = 6 \/ k = 7 \/ k = 8 \/ k = 9 \/ k = 10 \/ k = 11 \/ k = 12 \/ k = 13 \/
+                 k = 14 \/ k = 15 \/ k = 16 \/ k = 17 \/ k = 18 \/ k = 19 \/ k = 20) by lia.
+    repeat (destruct Hc as [-> | Hc]; [vm_compute; intuition|]). subst k. vm_compute. intuition.
+  - vm_compute. intuition.
+Qed.
+
+(* a list in which the sixth block forwards i_5 (seeded change C20-6) is rejected *)
+Lemma swapped_block_rejected :
+  let bad := [GIfNotPresent 1; GCall CGoto 1 0; GReturn; GElse; GCall CGoto 1 1; GRetIfErr; GEndIf] ++
+             flat_map (fun k => [GIfPresent k; GCall CGorel k (if k =? 6 then 5 else k); GRetIfErr; GEndIf]) (map Z.of_nat (seq 2 19)) in
+  goto_blocks_ok bad expected_gorel = false /\ forallb call_forwards_own_pair bad = false.
+Proof. vm_compute. split; reflexivity. Qed.
